@@ -74,6 +74,13 @@ def step (st : Option Seq) (ws : List String) : Option Seq × String :=
       let q' := { q with node := r.1 }
       (some q', "b " ++ joinOr (r.2.map (idxOf q)) ++ observe q')
     | _, _ => (st, "bad-op")
+  | "buildfail" :: rate :: is, some q =>
+    match parseU64 rate, allSome (is.map (findTx q)) with
+    | some rate, some txs =>
+      let r := buildChunk bond q.node rate txs
+      let q' := { q with node := r.1 }
+      (some q', "e " ++ joinOr (r.2.map (idxOf q)) ++ observe q')
+    | _, _ => (st, "bad-op")
   | "accept" :: ts :: is, some q =>
     match parseI64 ts, allSome (is.map (findTx q)) with
     | some ts, some txs =>
